@@ -10,6 +10,7 @@ import (
 	"time"
 
 	"verif/internal/gen"
+	"verif/internal/mon"
 )
 
 // Watch runs a library call on its own goroutine while the calling goroutine
@@ -22,7 +23,26 @@ import (
 type watchResult struct {
 	Panicked   bool
 	Deadlocked bool
+	Runaway    bool // the call passed more hook sites than the step bound allows: an unbounded loop
 	Dump       string
+}
+
+// stepBound is the number of hook sites one watched call may pass.  The largest
+// number seen on a correct tree is recorded in the evidence (max_watch_steps) and
+// is more than an order of magnitude below it; a loop that goes round a hook site
+// reaches it within seconds.  The bound counts logical steps, not time.
+const stepBound = 200_000
+
+// goroutineBlock returns the stack of goroutine gid from a full dump.
+func goroutineBlock(gid string) string {
+	buf := make([]byte, 4<<20)
+	buf = buf[:runtime.Stack(buf, true)]
+	for _, blk := range strings.Split(string(buf), "\n\n") {
+		if m := reGo.FindStringSubmatch(blk); m != nil && m[1] == gid {
+			return blk
+		}
+	}
+	return ""
 }
 
 var reGo = regexp.MustCompile(`(?m)^goroutine (\d+) \[([^\]]+)\]:`)
@@ -87,6 +107,7 @@ func (c *Ctx) Watch(what string, fn func()) watchResult {
 	var pmsg, pstack string
 	var runaway string
 	var gid atomic.Value
+	mon.StepsReset()
 	go func() {
 		gid.Store(curGoroutineID())
 		defer func() {
@@ -105,6 +126,16 @@ func (c *Ctx) Watch(what string, fn func()) watchResult {
 	for spins := 0; ; spins++ {
 		if fin.Load() {
 			break
+		}
+		if mon.Steps() > stepBound {
+			id, _ := gid.Load().(string)
+			blk := goroutineBlock(id)
+			if !fin.Load() && strings.Contains(blk, "pierrec/lz4") {
+				res.Runaway, res.Panicked, res.Dump = true, true, blk
+				c.Violation("runaway-loop/"+what, fmt.Sprintf("%s: one call passed more than %d hook sites without returning (unbounded loop)", what, stepBound), map[string]interface{}{"stack": trimStack(blk)})
+				c.needRestart = true // the abandoned goroutine keeps spinning: continue in a fresh process
+				return res
+			}
 		}
 		if spins < 200 {
 			runtime.Gosched()
@@ -127,6 +158,7 @@ func (c *Ctx) Watch(what string, fn func()) watchResult {
 			panic(harnessPanic{"Watch: call neither finished nor deadlocked (inconclusive)"})
 		}
 	}
+	c.Max("max_watch_steps", mon.Steps())
 	if pmsg != "" {
 		res.Panicked = true
 		c.Violation("panic/"+what+"/"+panicSite(pstack), "panic: "+pmsg, map[string]interface{}{"stack": trimStack(pstack)})
